@@ -27,6 +27,8 @@ def gen_cases(ctx):
     k = 0
     for name in SPECS:
         n = ctx.scale(6, 60) if name in SLOW else ctx.scale(14, 200)
+        if name in ("ADWIN", "ADWINAccuracy"):
+            n = ctx.scale(24, 300)
         for _ in range(n):
             k += 1
             cases.append(gen_case(ctx, name, k))
